@@ -119,6 +119,24 @@ def call(fn, *args, **kwargs):
         return Outcome(False, exc=e)
 
 
+def scramble(x):
+    """The caller owns what a call returned and may edit it in place: wreck every
+    mutable container in a returned value (a correct library never notices)."""
+    if isinstance(x, dict):
+        for v in list(x.values()):
+            scramble(v)
+        x.clear()
+    elif isinstance(x, list):
+        for v in x:
+            scramble(v)
+        x.reverse()
+        del x[len(x) // 2:]
+    elif isinstance(x, tuple):
+        for v in x:
+            scramble(v)
+    return None
+
+
 class Violation(Exception):
 
     def __init__(self, prop, oracle, detail):
